@@ -1196,9 +1196,11 @@ func (s *UtxoStore) GetBindingHistoryDetail(tx mwdb.ReadTransaction, addrMgr *ke
 	return ret, nil
 }
 
-func (s *UtxoStore) ExistCreditFromTx(rtx mwdb.ReadTransaction, hash *wire.Hash) bool {
+func (s *UtxoStore) ExistCreditFromTx(rtx mwdb.ReadTransaction, hash *wire.Hash) (bool, error) {
 	nsCredits := rtx.FetchBucket(s.bucketMeta.nsCredits)
 	iter := nsCredits.NewIterator(mwdb.BytesPrefix(hash[:]))
 	defer iter.Release()
-	return iter.Next()
+	exist := iter.Next()
+	// a failed read must not pass for "no credit": the spend would be skipped
+	return exist, iter.Error()
 }
